@@ -17,8 +17,3 @@ func newVerifLCD() *verifLCD {
 	p := New(intr, o, false)
 	return &verifLCD{p, intr, o}
 }
-
-// oamWindow: the OAM corruption window is open only while the LCD is on and in mode 2 (C17)
-func oamWindow(l *verifLCD) bool {
-	return !l.o.VerifCorrupt() || (l.p.enabled && l.p.mode == 2)
-}
